@@ -18,8 +18,11 @@ SPEC = {
                    "2^63, 2^64-1, X chosen through crypto/rand.Reader (0, 2^-52, 1/2, 1-2^-52, grid neighbours of "
                    "rates, random) with rates placed at X, next above, next below, 0, 1, denormals; gate closed by "
                    "mode local / age / as-of in 3/14 (60%, of which 1/6 also run the HTTP phase against a local "
-                   "server with a leftover report and compare POSTed bytes); two directed cases replay known "
-                   "findings 13 and 14; a quarter of the weeks have 2-3 DIFFERENT programs whose approved builds "
+                   "server with a leftover report and compare POSTed bytes); four directed cases replay known "
+                   "findings 13 and 14 and a name configured as counter AND stack with rates on either side of X, "
+                   "recorded both ways (the known class rate-table-shared is reported only when the decision is the "
+                   "one the single shared rate table gives; any other decision on such a name is an ordinary "
+                   "violation); a quarter of the weeks have 2-3 DIFFERENT programs whose approved builds "
                    "record counters and stacks of the SAME names, approved / rated / omitted differently per program, "
                    "files in random order; 8% have two different programs with the same base name, version and platform, one "
                    "approved; half of the cases name the count files as rotate1 does (begin days spread over the "
